@@ -1,8 +1,19 @@
 #!/bin/sh
-# offline setup: nothing to build for the Verus route; checks tool presence
+# offline setup: checks tool presence and pre-builds the native job harnesses (cargo test --no-run on a scratch
+# copy of /repo with the harness modules of /verif/native appended) into /verif/.cache, so that checks start warm
 set -e
 cd "$(dirname "$0")"
 verus --version >/dev/null
-python3 -c "import json" 
-mkdir -p evidence/replay
+mkdir -p evidence/replay .cache
+python3 - <<'PY'
+import sys
+sys.path.insert(0, 'lib')
+import jobs
+crates = sorted(set(j['crate'] for j in jobs.all_jobs() if j['engine'] == 'native'))
+res = jobs.run_native_batch(crates, build_only=True)
+for c, (rc, out, secs, cmd) in res.items():
+    print('native build %s: rc=%s %.0fs' % (c, rc, secs))
+    if rc != 0:
+        print(out[-3000:])
+PY
 echo "setup ok"
